@@ -9,6 +9,16 @@ import time
 VERIF = os.path.dirname(os.path.dirname(os.path.abspath(__file__)))
 LEAN_DIR = os.path.join(VERIF, "lean")
 DRIVER = os.path.join(LEAN_DIR, ".lake", "build", "bin", "dsdriver")
+GENDRIVER = os.path.join(LEAN_DIR, ".lake", "build", "bin", "gendriver")
+# properties that additionally carry theorems about the TRANSLATED source (lean/Gen regenerated from /repo, lean/Tie): registry of those theorems
+TIE_REG = [
+    ("C01", ["DsProofs.Tie.TIE_C01_cy", "DsProofs.Tie.TIE_C01_py", "DsProofs.Tie.TIE_cy_model", "DsProofs.Tie.TIE_py_model"]),
+    ("C13", ["DsProofs.Tie.TIE_cy_eq_py", "DsProofs.Tie.TIE_cy_eq_py_any", "DsProofs.Tie.TIE_cy_model", "DsProofs.Tie.TIE_py_model"]),
+    ("C06", ["DsProofs.Tie.TIE_cy_model"]),
+    ("C08", ["DsProofs.Tie.TIE_cy_model"]),
+    ("C07", ["DsProofs.Tie.TIE_batch_size", "DsProofs.Tie.TIE_batch_size_model"]),
+]
+TIE_PROPS = {p for p, _ in TIE_REG}
 ALLOWED_AXIOMS = {"propext", "Classical.choice", "Quot.sound"}
 FORBIDDEN = re.compile(r"\bsorry\b|\badmit\b|^\s*axiom\s|native_decide|bv_decide|implemented_by|\bunsafe\s|maxHeartbeats\s+0\b", re.M)
 
@@ -50,7 +60,7 @@ def build(targets=("Ds", "DsProofs", "dsdriver"), timeout=3000):
 
 def _closure():
     """Lean files of this project reachable from the build roots (Ds, DsProofs, Driver, Audit)"""
-    seen, todo = set(), ["Ds", "DsProofs", "Driver", "Audit"]
+    seen, todo = set(), ["Ds", "DsProofs", "Driver", "Audit", "Gen", "Tie", "GenDriver", "AuditTie"]
     while todo:
         m = todo.pop()
         path = os.path.join(LEAN_DIR, m.replace(".", "/") + ".lean")
@@ -139,6 +149,8 @@ def modules_for(prop_id):
     for pid, m, _ in mk.REG:
         if pid == prop_id and m not in mods:
             mods.append(m)
+    if prop_id in TIE_PROPS and os.environ.get("VERIF_TIE_OK") == "1":
+        mods += ["Gen.Kernel", "Tie.Properties"]
     return mods
 
 
@@ -149,3 +161,80 @@ def leanchecker(mods, timeout=1500):
     t0 = time.time()
     r = subprocess.run(["lake", "env", "leanchecker"] + mods, cwd=LEAN_DIR, capture_output=True, text=True, timeout=timeout)
     return r.returncode == 0, ("%s (%.0fs)" % ((r.stdout + r.stderr)[-300:].strip(), time.time() - t0))
+
+
+# ---- the translated source (Gen) and the theorems that tie it to the model (Tie) ---------------------------------------------------------
+
+def tie_obligations_for(prop_id):
+    return [t for p, ts in TIE_REG if p == prop_id for t in ts]
+
+
+def write_audit_tie():
+    names = []
+    for _, ts in TIE_REG:
+        for t in ts:
+            if t not in names:
+                names.append(t)
+    txt = "import Tie\n/-! axiom audit of the theorems about the translated source (generated by harness/leanio.py) -/\n" + "".join("#print axioms %s\n" % t for t in names)
+    path = os.path.join(LEAN_DIR, "AuditTie.lean")
+    if not os.path.exists(path) or open(path).read() != txt:
+        open(path, "w").write(txt)
+
+
+_TIE_CACHE = {}
+
+
+def tie_build(timeout=1800):
+    """regenerate lean/Gen/Kernel.lean from the repository's current source, rebuild Gen, Tie and gendriver, audit the axioms.
+    Returns dict(ok, problems, report, axioms, secs)."""
+    if "r" in _TIE_CACHE:
+        return _TIE_CACHE["r"]
+    import importlib, sys
+    here = os.path.dirname(os.path.abspath(__file__))
+    if here not in sys.path:
+        sys.path.insert(0, here)
+    tr = importlib.import_module("translate")
+    os.makedirs(os.path.join(LEAN_DIR, ".lake"), exist_ok=True)
+    lock = open(os.path.join(LEAN_DIR, ".lake", "verif.lock"), "w")
+    fcntl.flock(lock, fcntl.LOCK_EX)
+    problems, axioms, report = [], {}, {}
+    t0 = time.time()
+    try:
+        try:
+            report = tr.write()
+        except Exception as e:  # noqa
+            problems.append("translator crashed: %r" % (e,))
+        for name, r in report.items():
+            if isinstance(r, dict) and r.get("ok") is False:
+                problems.append("source function %s is outside the translatable subset: %s" % (name, r.get("why")))
+            if isinstance(r, dict) and r.get("uses_narrow"):
+                problems.append("source function %s assigns to a single-precision variable" % name)
+        write_audit_tie()
+        r = subprocess.run(["lake", "build", "Gen", "Tie", "gendriver"], cwd=LEAN_DIR, capture_output=True, text=True, timeout=timeout)
+        ok = r.returncode == 0
+        if not ok:
+            problems.append("lake build Gen Tie gendriver failed (the translated source is no longer proved equal to the model): " + (r.stdout + r.stderr)[-1500:])
+            try:
+                os.remove(GENDRIVER)          # never run a stale translated kernel
+            except OSError:
+                pass
+        else:
+            a = subprocess.run(["lake", "env", "lean", "AuditTie.lean"], cwd=LEAN_DIR, capture_output=True, text=True, timeout=600)
+            out = a.stdout + a.stderr
+            for m in re.finditer(r"'([^']+)' depends on axioms: \[([^\]]*)\]", out, re.S):
+                axioms[m.group(1)] = [x.strip() for x in m.group(2).replace("\n", " ").split(",") if x.strip()]
+            for m in re.finditer(r"'([^']+)' does not depend on any axioms", out):
+                axioms[m.group(1)] = []
+            if a.returncode != 0:
+                problems.append("AuditTie.lean does not check: " + out[-600:])
+    finally:
+        fcntl.flock(lock, fcntl.LOCK_UN)
+        lock.close()
+    _TIE_CACHE["r"] = dict(ok=not problems, problems=problems, report=report, axioms=axioms, secs=round(time.time() - t0, 1))
+    return _TIE_CACHE["r"]
+
+
+class GenDriver(Driver):
+    def __init__(self):
+        self.p = subprocess.Popen([GENDRIVER], stdin=subprocess.PIPE, stdout=subprocess.PIPE, text=True, bufsize=1)
+        self.n = 0
